@@ -15,8 +15,20 @@ VARIABLES tid, l, r, ov, rb, ovb, acc, verdict
 
 Compared == ((1..13) \ {rF}) \cup {15} \cup (17..24) \cup {rIFF, rIM, rHALT}
 
+\* C08's clauses on the same observations: the ROM is never written, every register stays in its range, the clock does not
+\* run backwards
+Regs8 == (1..12) \cup (15..24)
+Range(c, o) ==
+  /\ \A i \in Regs8 : o.r[i] \in 0..255
+  /\ o.r[rSP] \in 0..65535 /\ o.r[rPC] \in 0..65535
+  /\ o.r[rIFF] \in 0..1 /\ o.r[rIM] \in 0..2 /\ o.r[rHALT] \in 0..1
+  /\ o.r[rT] >= c.r0[rT]
+  /\ \A i \in 1..Len(o.wr) : o.wr[i][2] \in 0..255
+
 Sem(c, fin, o) ==
   IF o.exc # "" THEN "exception"
+  ELSE IF \E i \in 1..Len(o.wr) : o.wr[i][1] < 16384 THEN "rom-write"
+  ELSE IF ~Range(c, o) THEN "range"
   ELSE IF \E i \in Compared : o.r[i] # fin.r[i] THEN "regs"
   ELSE IF And8(o.r[rF], fin.mask) # And8(fin.r[rF], fin.mask) THEN "flags"
   ELSE IF o.r[rPC] # fin.r[rPC] THEN "pc"
